@@ -22,8 +22,7 @@ def cfgValid (m : Mem) (c : PipeCfg) : Bool :=
   (!m.names c.name || (m.pls c.id).any (·.name = c.name)) &&
   dlqValid c.dlq &&
   c.conns.all connCfgValid && c.procs.all procCfgValid &&
-  (c.conns.map (·.id)).eraseDups.length = c.conns.length &&
-  c.procIds.eraseDups.length = c.procIds.length
+  nodupB (c.conns.map (·.id)) && nodupB c.procIds
 
 /-- export of the pipeline equals the configuration, field by field (incl. order, workers, conditions). -/
 def Converged (v : Variant) (m : Mem) (c : PipeCfg) : Prop := exportPl v m c.id = .ok (some c)
